@@ -43,6 +43,29 @@ let show_event (e: event) : string option = match e with
   | EDrop c -> Some ("drop:" ^ tag_label c)
   | EUseAfterFree k -> Some (Printf.sprintf "uaf:%d" (int_of_nat k))
 let join l = if l = [] then "-" else String.concat "," l
+(* ---- RpcMessage wire format (C19_Wire) ---- *)
+let opt_of_spec s = if s = "~" then None else Some (bytes_of_spec s)
+let show_opt = function None -> "~" | Some b -> hex_or_dash b
+let mtype_of_int = function 1 -> MT_REQUEST | 2 -> MT_RESPONSE | 3 -> MT_ERROR | n -> failwith ("bad type " ^ string_of_int n)
+let int_of_mtype = function MT_REQUEST -> 1 | MT_RESPONSE -> 2 | MT_ERROR -> 3
+let err_of_int = function 0 -> NO_ERROR | 1 -> WRONG_PROTO | 2 -> NO_SERVICE | 3 -> NO_METHOD | 4 -> INVALID_REQUEST
+  | 5 -> INVALID_RESPONSE | 6 -> TIMEOUT | n -> failwith ("bad error " ^ string_of_int n)
+let int_of_err = function NO_ERROR -> 0 | WRONG_PROTO -> 1 | NO_SERVICE -> 2 | NO_METHOD -> 3 | INVALID_REQUEST -> 4
+  | INVALID_RESPONSE -> 5 | TIMEOUT -> 6
+let wire_op (w: string list) : string option =
+  match w with
+  | ["SER"; t; id; svc; meth; req; resp; err] ->
+      let m = { m_type = mtype_of_int (int_of_string t); m_id = z_of_string id; m_service = opt_of_spec svc;
+                m_method = opt_of_spec meth; m_request = opt_of_spec req; m_response = opt_of_spec resp;
+                m_error = (if err = "~" then None else Some (err_of_int (int_of_string err))) } in
+      Some ("wire:" ^ hex_or_dash (wire_ser m))
+  | ["WIRE"; h] ->
+      (match wire_parse (bytes_of_spec h) with
+       | None -> Some "parsed:reject"
+       | Some m -> Some (Printf.sprintf "parsed:%d:%s:%s:%s:%s:%s:%s" (int_of_mtype m.m_type) (string_of_z m.m_id)
+                           (show_opt m.m_service) (show_opt m.m_method) (show_opt m.m_request) (show_opt m.m_response)
+                           (match m.m_error with None -> "~" | Some e -> string_of_int (int_of_err e))))
+  | _ -> None
 let show_state (ch: chan) : string =
   let s = ch.core in
   let o = List.map (fun (i, c) -> Printf.sprintf "%s:r%dd%d" (string_of_z i) (if c.c_resp then 1 else 0) (if c.c_done then 1 else 0)) s.outs in
@@ -92,6 +115,8 @@ let () =
         let s = (match run_labels !st fin with Some (s, _) -> s | None -> !st) in
         let dtor = List.sort compare (List.concat (List.map (fun (_, c) -> if c.c_done then [tag_label c.c_tag] else []) s.core.outs)) in
         Printf.printf "final dtor=%s leaked=%s respleak=-\nend\n" (join dtor) (join (List.sort compare !leaked)); flush stdout
+    | w when wire_op w <> None ->
+        (match wire_op w with Some e -> Printf.printf "ok ev=%s %s\n" e (show_state !st) | None -> ()); flush stdout
     | w ->
         let s = !st in
         let next_id = s.core.next_id in
